@@ -1,6 +1,7 @@
 pub mod exec;
 pub mod lex;
 pub mod lexrec;
+pub mod lint;
 pub mod table;
 
 use crate::Verdict;
@@ -17,6 +18,9 @@ pub fn check(family: &str, rec: &J) -> Verdict {
         "determ" => HELPER.with(|h| exec::check_determ(rec, &mut h.borrow_mut())),
         "table" => table::check(rec),
         "lex" => lex::check_lex(rec),
+        "fold" => lint::check_fold(rec),
+        "lint" => lint::check_lint(rec),
+        "visit" => lint::check_visit(rec),
         "exec" => exec::check(rec),
         "total" => lex::check_total(rec),
         _ => Verdict {
